@@ -104,14 +104,25 @@ func (r *responseWriter) Write(b []byte) (int, error) {
 	return r.writer.Write(b)
 }
 
+// Flush sends what has been written so far; the response stays open until Close.
 func (r *responseWriter) Flush() {
+	if nil == r.writer {
+		return
+	}
 	if !r.wroteHeader {
 		r.WriteHeader(http.StatusOK)
 	}
-	_ = r.Close()
+	_ = r.writer.Flush()
 }
 
+// Close completes the response (once) and releases the buffered writer.
 func (r *responseWriter) Close() (err error) {
+	if nil == r.writer {
+		return nil
+	}
+	if !r.wroteHeader {
+		r.WriteHeader(http.StatusOK)
+	}
 
 	if nil != r.chunkWriter {
 		err = r.chunkWriter.Close()
